@@ -259,6 +259,40 @@ def run(ctx):
                                        {"family": fn, "kind": kind, "mode": mode, "sizes": [ml, mi], "calls": calls[:i + 1], "difference": repr(bad)})
                     break
         ctx.count((fn, kind, repr(calls)), nontrivial=had_bad)
+    # ---- the tie of C09's theorems to the code, in C09's own run: C09_results_equal / C09_shape_equal are about
+    # ONE model with switches; both implementations must follow that model (results, contents, shape) on the
+    # same in-domain histories
+    from harness import caseutil
+    from harness.treelib import HDR, call_term, out_term, shape_term
+    terms, meta = [], []
+    for it in range(ctx.n(120, 3000)):
+        kind = rng.choice(["BTree", "TreeSet", "BTree", "Bucket", "Set"])
+        fn = rng.choice(ALL_FAMS)
+        setlike = kind in ("TreeSet", "Set")
+        ml, mi = rng.choice([(2, 2), (3, 3), (2, 3), (4, 4), (1, 2)]) if kind in ("BTree", "TreeSet") else (100000, 100000)
+        mode = rng.choice({"O": ["none-int", "str", "int"]}.get(fn[0], [None, "extreme"]))
+        u = rng.choice([6, 14, 30])
+        calls = gen_history(rng, kind, u, rng.choice([10, 25, 50]), avoid0=(mode == "none-int"), selfops=True)
+        for impl in ("C", "Py"):
+            env = TreeEnv(fn, kind, impl, mode)
+            with env.sized(ml, mi):
+                t = env.new()
+                outs = [env.call(t, c) for c in calls]
+                sh = env.shape(t) if kind in ("BTree", "TreeSet") else None
+                items = [(env.km.ik(k), 0) for k in t] if setlike else [(env.km.ik(k), env.vm.iv(v)) for k, v in t.items()]
+            vs = "true" if (impl == "C" and fn[1] in "IULQF" and not setlike and fn != "fs") else "false"
+            terms.append("TC %d %d %s %s [%s] [%s] %s [%s]" % (
+                ml, mi, vs, "true" if impl == "C" else "false",
+                "; ".join(call_term(c) for c in calls), "; ".join(out_term(o) for o in outs),
+                shape_term(sh) if sh is not None else "WAnyS",
+                "; ".join("KV %s %s" % (caseutil.z(a), caseutil.z(b)) for a, b in items)))
+            meta.append((fn, kind, impl, mode, ml, mi, calls))
+    total, badi, errs = caseutil.eval_cases("c09", HDR, "tcase_ok", terms, shard=60, ctype="wtcase")
+    for e in errs:
+        ctx.corr_mismatch("c09 case file", e)
+    for i in badi[:5]:
+        ctx.corr_mismatch("the shared model (TreeRun with the isC / vsame switches) vs implementation", {"case": meta[i]})
+    stats["histories_compared_with_the_shared_model"] = total
     ctx.cov.update(stats)
     ctx.traces = ctx.evaluations
     ctx.sample({"note": "paired execution of one history on the C and the Python class; see 'calls' counters"})
